@@ -169,7 +169,7 @@ CLAIMS['C13'] = dict(
 CLAIMS['C14'] = dict(
     level='proof',
     text=('The four constant tables are compared entry by entry with RFC 4648 (alphabets; decode tables are their inverses, hex also A-F, '
-          'everything else incl. \'=\' is -1). Bit provenance of every table index computed by every function that holds an encoding loop (plain '
+          'everything else incl. \'=\' is -1; a decode table in another form than 256 ints is a finding only for an entry wrong under both the signed and the unsigned reading, else undecided). Bit provenance of every table index computed by every function that holds an encoding loop (plain '
           'or template instantiation; the table is any constant that is the alphabet) (hex nibbles; base64 full group '
           'and both tail forms with their \'=\' count) and of every byte rebuilt by the decoders from the table values is compared bit for bit '
           'with the RFC layout, per loop iteration (so for any length); a byte that depends on a table value of another group is flagged. '
@@ -182,7 +182,7 @@ CLAIMS['C15'] = dict(
     text=('Both decoder cores are interpreted over a symbolic string and a caller buffer whose claimed size ranges over the whole type: every '
           'table value is known non-negative where it contributes to a byte; oracle classes of RFC 4648 (7 hex / 9 base64 byte ranges x every '
           'position of a group) are accepted / rejected exactly; success paths have passed the length test; with a null output nothing is '
-          'stored and the implied length is returned; stores are contiguous from the output cursor and inside the buffer, reads inside the '
+          'stored and the implied length is returned; stores are contiguous from the output cursor and inside the buffer, lookups in constant tables inside the table (model of the path otherwise), reads inside the '
           'string (affine cursor relations inferred and verified, facts combined by elimination). For hex this is complete. For base64 the '
           'placement of the tail group (that it is the last four characters) needs a divisibility argument outside the domains: its accesses '
           'are reported undecided - hence level "other", not proof. R15.5: b64_decode is interpreted exactly on one- and two-group inputs constrained by twenty digit / \'=\' patterns - the three well-formed endings return the decoded length, every other placement of \'=\' returns -1 on every path (state carried between groups shows on the two-group patterns).'),
@@ -192,7 +192,7 @@ CLAIMS['C15'] = dict(
 CLAIMS['C09'] = dict(
     level='other',
     text=('The five searching loops (split x3, the two scans of replace) are summarised per iteration by abstract interpretation with the '
-          'search primitive as a symbol (match inside the haystack or none). Machine-checked step facts: the needle handed to the '
+          'search primitive as a symbol (match inside the haystack or none; the primitive is find_cs / find_ci or any library function recognised as a substring search by its shape, whose treatment of an empty needle is established by interpreting it once with length 0). Machine-checked step facts: the needle handed to the '
           'search is never empty (an empty separator / pattern leaves the text whole); the next search starts at match + length of the '
           'needle searched for; split emits the piece [cursor, match) and decrements max_splits once per piece, the final piece reaches '
           'the end; the sizing scan of replace adds |to|-|from| (mod 2^64) per occurrence and the copying scan copies the gap then `to` '
@@ -224,7 +224,7 @@ CLAIMS['C11'] = dict(
           'numeric_pad, alignment, width, digit count) the unit sequence format_numeric_string hands to the writer - however split into '
           'calls - is sign, radix prefix (none for zero), digits, extended to the width with max(0, width - digits - |sign| - |prefix|) pad '
           'units between sign/prefix and digits (zero-pad), in front (right / default) or behind (left); format_string emits the first '
-          'min(size, precision) units and the pad on the side of the alignment; every numeric printer hands the radix / letter case of its '
+          'min(size, precision) units and the pad on the side of the alignment (every alignment / default-alignment case judged by the rule itself, for an empty and a non-empty emitted text); every numeric printer hands the radix / letter case of its '
           'digit class to the digit generator and the true sign class to the layout; apply_format dispatches a field without &N to '
           'entry[counter] and advances the counter, &N to entry[N-1] leaving the counter alone; a value given the character class renders as the '
           'UTF-8 encoding of the code point bit for bit (U+FFFD outside 0..10FFFF, negatives included); every flag character of a field text '
